@@ -5,6 +5,8 @@ HARNESSES = {
     'engine': dict(flavour='asan', srcs=['engine.cpp']),
     'c11': dict(flavour='asan', srcs=['c11.cpp']),
     'c13': dict(flavour='asan', srcs=['c13.cpp']),
+    'c17': dict(flavour='asan', srcs=['c17.cpp']),
+    'c04': dict(flavour='asan', srcs=['c04.cpp']),
 }
 
 PROPS = {
@@ -80,6 +82,34 @@ PROPS = {
              're-add of a live tag that is not the newest, or a refused add after >=1 success.',
         assumptions=['refused adds are only issued for tags that are not live (whether the old content of the same '
                      'tag survives a refused re-add is not fixed by the property)'],
+    ),
+    'C17': dict(
+        harness='c17', level='exploration',
+        quick=dict(shards=8, n=500, size=100),
+        thorough=dict(shards=16, n=20000, size=100),
+        rule='C01-style scenario (tree, five kill plugins, random arguments, 2-6 ticks) biased to repeated kills of '
+             'the same cgroup (delay 0, lingering / EPERM / ESRCH pids), pre-existing integer oomd_* xattrs (0..2^30), '
+             'dry and wet, always_continue, silence-logs; chain = scripted action, kill plugin, scripted action. '
+             'Oracle per attempt: both uuid xattrs = one fresh id, oomd_ooms = previous+1, oomd_kill = previous + '
+             'number of kill(2) calls that returned 0 (kernelkill: >= 1 iff cgroup.kill was written), one structured '
+             'kmsg record and +1 on oomd.kills iff >=1 signal succeeded (dry: record marked (dry), no count), next '
+             'action runs iff nothing was killed or always_continue, kill_by_pg_scan pauses exactly on its first '
+             'sampling tick. Non-trivial = an attempt with both successful and failed signals, or a second attempt on '
+             'a cgroup carrying counters from the first.',
+        assumptions=['xattr model keyed by directory inode; no prekill hooks here (C07)'],
+    ),
+    'C04': dict(
+        harness='c04', level='exploration',
+        quick=dict(shards=8, n=400, size=100),
+        thorough=dict(shards=16, n=15000, size=100),
+        rule='differential: each generated scenario (C01-style world and history, one of the five kill plugins or '
+             'systemd_restart per ruleset) is run twice on identically materialised worlds, dry=true and dry=false. '
+             'Dry run: zero kill/setxattr/control-file write/pidfd_open/process_mrelease/sd_bus calls and oomd.kills / '
+             'oomd.restarts unchanged; its first (dry) kmsg record names the cgroup the wet run attempts first, at the '
+             'same tick and ruleset; next action runs iff always_continue; next chain start tick equals the wet '
+             "run's when the wet first attempt succeeded. Non-trivial = the wet run signalled >=1 process (or "
+             'restarted the service) at its first attempt.',
+        assumptions=['sd_bus_* interposed; the wet restart always succeeds'],
     ),
 }
 
